@@ -123,12 +123,17 @@ pub fn special_or_rule(
                 _ => return None,
             }
 
-            if right_type.is_nil() || left_type.is_const() {
+            // `x or false` can evaluate to `false`, and an always-falsy `x` always yields the
+            // right operand: the shortcut below would drop those results.
+            if right_type.is_always_falsy() || left_type.is_always_falsy() || left_type.is_const() {
                 return None;
             }
 
-            if check_type_compact(db, left_type, right_type).is_ok() {
-                return Some(remove_false_or_nil(left_type.clone()));
+            // The result is either a truthy `x` or the literal, so the literal has to fit the
+            // truthy part of `x` (not just its `nil`/`false` members) to be absorbed by it.
+            let truthy_left_type = remove_false_or_nil(left_type.clone());
+            if check_type_compact(db, &truthy_left_type, right_type).is_ok() {
+                return Some(truthy_left_type);
             }
         }
 
